@@ -61,6 +61,9 @@ var rewriteShapes = []string{
 	`(?<=(?:a*ba){2})`, `(?<=(?:a*$){2})`, `(?<=(?:a*\z){2})c?`, `(?<=(?:[ab]*ba){2,3})`, `(?<!(?:a*ba){2})a`, `(?<=(?:a+b){2})`,
 	`[ab]+(?=[ab]*c)[ab]c`, `\w+(?=\w*\.)[ab]\.`, `[ab]+(?=[ab]*?c)[ab]c`, `[ab]*(?:[ab]+\w{0,2}?(?=[ab]*?\S*-)|\z[a-]){2}`, `[ab]*[cd]*e`, `[ab]+[bc]?c`,
 	`(?>a+)?ab`, `(?>a?){2,}ab`, `(?>a*)?aab`, `(?>a{1,2}){2}`, `(?>a*)+b`,
+	// loops that can consume a newline in front of an end anchor: only \z is unconditional, `$` (end or before a final
+	// newline; every line end under Multiline) and \Z need a loop that cannot take the newline
+	`\s*$`, `a\s*$`, `^\s*$\n`, `\n*$\n\nx`, `[^ab]*$\nc`, `(\s*)$`, `\W+$`, `[\s,]+$`, `\s*\Z`, `\n*\Z`, `[^a]*\z`, `\s+$\s`, `a\n*$\nb`, `[^ab]*$`, `\s*?$`, `(?>\s*)$`, `\n+$`,
 	`(?<a-b>x|(?<b>x))`, `(?=(?<a-b>x|(?<b>x)))x`, `a(?<a-b>(?<b>x)*?|x)`, `(?>(?<a-b>x*?|(?<b>x)))`, `(?<b>a)?(?<a-b>x|(?<b>x))c?`, `(?<a-b>(?:x|(?<b>x))+?)`, `(?<b>a)(?<-b>x*)x`,
 }
 
@@ -120,6 +123,14 @@ func legGates(c *Ctx) {
 				}
 				if strings.Contains(p.pat, `\d`) && !containsRune(keep, '1') {
 					keep = append(keep, '1')
+				}
+				// patterns about white space, newlines and line ends get the newline and the blank
+				if strings.Contains(p.pat, `\s`) || strings.Contains(p.pat, `\n`) || strings.Contains(p.pat, `$`) || strings.Contains(p.pat, `\Z`) || strings.Contains(p.pat, `\W`) {
+					for _, ch := range []rune{'\n', ' '} {
+						if !containsRune(keep, ch) {
+							keep = append(keep, ch)
+						}
+					}
 				}
 				al = keep
 			}
